@@ -60,9 +60,26 @@ def gen(chk, tier):
             cmds.append(dict(sc=k, op="gcm.open", h=aeads[ns], nonce=nonce, aad=aad, ct=ct, prefix=[], spare=-1,
                              alias="none", repeat=False, j="v"))
 
+    def opens_room(cls, key, ts, cases):
+        """refused messages opened into a destination WITH room (spare capacity behind dst, or in place): nothing
+        that is the decryption of the body may be left there"""
+        sc[0] += 1
+        k = sc[0]
+        cmds.append(dict(sc=k, op="scenario", cls=cls))
+        cmds.append(dict(sc=k, op="gcm.aead", h="a", key=key, noncesize=len(cases[0][0]), tagsize=ts, path="asm"))
+        for (nonce, aad, ct) in cases:
+            body = len(ct) - ts
+            for alias, spare, prefix in (("none", body + 3, []), ("none", body, [9, 9, 9]), ("inplace", 0, [])):
+                cmds.append(dict(sc=k, op="gcm.open", h="a", nonce=nonce, aad=aad, ct=ct, prefix=prefix, spare=spare,
+                                 alias=alias, repeat=False, j="v"))
+
     for (key_, nonce, aad, pt, ts), ct in zip(items, sealed):
         L = len(pt)
         opens("authentic", key_, ts, [(nonce, aad, ct)])
+        if L >= 4:
+            forged = [flip(ct, 8 * L + rng.randrange(8 * ts)), flip(ct, rng.randrange(8 * L)), flip(ct, 8 * (L + ts) - 1)]
+            opens_room("refused_with_room", key_, ts, [(nonce, aad, f) for f in forged]
+                       + ([(nonce, flip(aad, 0), ct)] if aad else []))
         # every bit of the tag
         opens("tag_bit", key_, ts, [(nonce, aad, flip(ct, 8 * L + b)) for b in range(8 * ts)])
         # ciphertext bits
